@@ -770,11 +770,13 @@ fn zombies() -> (usize, usize) {
     // (children reaped now because they were zombies, children still running) -- after the scenario
     let mut z = 0;
     let mut running = 0;
+    let mut pids = vec![];
     loop {
         let mut st = 0i32;
         let r = unsafe { libc::syscall(libc::SYS_wait4, -1, &mut st as *mut i32, libc::WNOHANG, 0) };
         if r > 0 {
             z += 1;
+            pids.push(r.to_string());
         } else if r == 0 {
             running += 1;
             break;
@@ -782,6 +784,7 @@ fn zombies() -> (usize, usize) {
             break;
         }
     }
+    println!("zombie_pids {}", pids.join(","));
     (z, running)
 }
 
